@@ -129,6 +129,14 @@ let handle (line : string) : string =
     let base = if b = "!" then None else Some (str_of_hex b) in
     let (o, steps) = history idna c base (str_of_hex i) (parse_ops ops []) in
     String.concat " ; " (show_obs o :: List.map (fun ((e, a), b) -> fields e ^ " , " ^ fields a ^ " , " ^ fields b) steps)
+  | ["BP"; c; b; st; ov; i] ->
+    (* direct BasicParser call: base "!" = nil; start "!" = nil, "@" = NewUrl(), else text to parse first *)
+    let c = Hashtbl.find cfgs c in
+    let base = if b = "!" then None else Some (str_of_hex b) in
+    let start = if st = "!" then DNil else if st = "@" then DNew else DParsed (str_of_hex st) in
+    (match direct idna c base start (n_of_int (int_of_string ov)) (str_of_hex i) with
+     | None -> "SKIP"
+     | Some l -> "D " ^ fields l)
   | ["CP"; p; i] -> let p = Hashtbl.find profs p in show_obs (obs_cres p.p_cfg (profileParse idna p (str_of_hex i)))
   | ["CR"; p; b; i] -> let p = Hashtbl.find profs p in show_obs (obs_cres p.p_cfg (profileParseRef idna p (str_of_hex b) (str_of_hex i)))
   | "INV" :: c :: fs -> let c = Hashtbl.find cfgs c in
